@@ -108,6 +108,63 @@ pub fn oracle_r(_ctx: &RunCtx, gp: &GenPoint, log: &mut CaseLog) -> Result<(), S
             }
         }
     }
+    // generator (party i, index j) is the same point however the caller walks the iterators: strides, skips, `nth` on a partly
+    // consumed iterator
+    {
+        let n = gi.len();
+        let mut r = chacha(gp.bulk ^ 0x17e7);
+        for (name, want, mk) in [("gi_base_iter", &gi, 0u8), ("hi_base_iter", &hi, 1u8)] {
+            let it = || -> Box<dyn Iterator<Item = &RistrettoPoint> + '_> { if mk == 0 { Box::new(p.gi_base_iter()) } else { Box::new(p.hi_base_iter()) } };
+            for stride in [2usize, 3, 5, 7, bits.max(2) - 1, bits + 1, 65] {
+                let got: Vec<RistrettoPoint> = guarded(|| it().step_by(stride).cloned().collect())?;
+                let exp: Vec<RistrettoPoint> = want.iter().step_by(stride).cloned().collect();
+                if got != exp {
+                    return Err(format!("{}().step_by({}) does not yield generators 0, {}, {}, ..", name, stride, stride, 2 * stride));
+                }
+            }
+            for _ in 0..6 {
+                let a = (r.next_u64() as usize) % (n + 1);
+                let b = (r.next_u64() as usize) % (n + 2);
+                let got: Option<RistrettoPoint> = guarded(|| {
+                    let mut i = it();
+                    for _ in 0..a {
+                        i.next();
+                    }
+                    i.nth(b).cloned()
+                })?;
+                if got != want.get(a + b).cloned() {
+                    return Err(format!("{}(): nth({}) after {} calls of next() is not generator {}", name, b, a, a + b));
+                }
+                let got: Option<RistrettoPoint> = guarded(|| it().skip(a).last().cloned())?;
+                if got != if a < n { want.last().cloned() } else { None } {
+                    return Err(format!("{}().skip({}).last() is not the last generator", name, a));
+                }
+            }
+            if guarded(|| it().count())? != n {
+                return Err(format!("{}().count() != {}", name, n));
+            }
+        }
+    }
+    // an existing parameter object overwritten through Clone::clone_from with this one is this one
+    if bits * cap <= 1024 {
+        let other_bits = if bits == 64 { 32 } else { bits * 2 };
+        let mut a = RangeParameters::<RistrettoPoint>::init(other_bits, if cap >= 2 { cap / 2 } else { 2 }, ristretto::create_pedersen_gens_with_extension_degree(ext_of(ext % 6 + 1)))
+            .map_err(|e| format!("{:?}", e))?;
+        guarded(|| a.clone_from(&p))?;
+        if digest_r(&a) != digest_r(&p) {
+            return Err("a parameter object overwritten with clone_from does not hand out the source's generators".into());
+        }
+        let n2 = 2 * gi.len();
+        let mut c = vec![Scalar::ZERO; n2];
+        let pos = (gp.bulk as usize) % n2;
+        c[pos] = Scalar::ONE;
+        let d = Scalar::from(7u8);
+        let got = guarded(|| a.precomp().vartime_mixed_multiscalar_mul(c.iter(), [d].iter(), [*p.h_base()].iter()))?;
+        let want = if pos % 2 == 0 { gi[pos / 2] } else { hi[pos / 2] } + d * *p.h_base();
+        if got != want {
+            return Err("the precomputed table of a parameter object overwritten with clone_from is not the source's table".into());
+        }
+    }
     // pairwise distinct, none the identity
     let all = digest_r(&p);
     let mut seen = HashSet::new();
@@ -279,7 +336,7 @@ pub fn def() -> PropertyDef {
                generator k == SHA3-512(\"RISTRETTO_MASKING_BASEPOINT_<k+1>\") mapped to the group; vector generator (party i, index j) == the \
                independent SHAKE256 chain derivation, party-major; compressed forms == compress(point), and (small sets) the H / G messages that prover and verifier absorb into the transcript, observed through the instrumented merlin copy, are exactly those encodings, one per blinding generator; all compressed generators of the set \
                pairwise distinct and none the identity; precomputed table: for one dense random scalar vector, three sparse ones and one unit \
-               vector, table.vartime_multiscalar_mul(c) == sum c_t * (interleaved G_0,H_0,G_1,H_1,..)_t, and the same through vartime_mixed_multiscalar_mul with 1-3 dynamic terms (the call prover and verifier make), with full and with zero-padded static scalars; second construction, clone and (for a \
+               vector, table.vartime_multiscalar_mul(c) == sum c_t * (interleaved G_0,H_0,G_1,H_1,..)_t, and the same through vartime_mixed_multiscalar_mul with 1-3 dynamic terms (the call prover and verifier make), with full and with zero-padded static scalars; the same points through step_by / skip / nth on partly consumed iterators; a parameter object overwritten through clone_from equals its source (generators and table); second construction, clone and (for a \
                fifth of the small sets) 8 concurrent constructions give identical bytes. Over the free module the table entries are compared \
                one by one. Racing FIRST use of the lazily cached blinding generators from a cold process is exercised by C18. Non-trivial = \
                every grid point; distinct by (bits, capacity, degree)."
